@@ -320,6 +320,39 @@ func checkFlattenerDispatch(c *core.Ctx, r *core.Report) {
 	for _, n := range []string{"ParseRawJsonObject", "parseNonJaegerRawJsonArray", "parseSingleString", "parseSingleNumber", "parseSingleBool", "parseSingleNull"} {
 		handlers[c.Obj(pkgWriter, n)] = true
 	}
+	// the function hosting the per-key callback: ParseRawJsonObject itself, or — when that has become a wrapper
+	// (options, a depth counter) — the worker of the package it hands over to: found as the functions reachable
+	// from it through calls inside the package (two levels) that walk an object with jsonparser.ObjectEach.  The
+	// worker is a value handler as well (it is what the recursion for objects calls).
+	objectEach := c.ExtObj("github.com/buger/jsonparser", "ObjectEach")
+	var hosts []*ssa.Function
+	seenHost := map[*ssa.Function]bool{}
+	var findHosts func(f *ssa.Function, depth int)
+	findHosts = func(f *ssa.Function, depth int) {
+		if f == nil || f.Blocks == nil || seenHost[f] || depth > 2 {
+			return
+		}
+		seenHost[f] = true
+		walks := false
+		for _, ci := range core.CallsIn(f) {
+			if core.IsCallTo(ci, objectEach) {
+				walks = true
+			}
+		}
+		if walks {
+			hosts = append(hosts, f)
+			if f.Object() != nil {
+				handlers[f.Object()] = true
+			}
+			return
+		}
+		for _, ci := range core.CallsIn(f) {
+			if h := ci.Common().StaticCallee(); h != nil && core.FnPkgPath(h) == core.FnPkgPath(outer) {
+				findHosts(h, depth+1)
+			}
+		}
+	}
+	findHosts(outer, 0)
 	hset := objSet{}
 	for o := range handlers {
 		hset[o] = true
@@ -334,7 +367,11 @@ func checkFlattenerDispatch(c *core.Ctx, r *core.Report) {
 		}
 	}
 	n := 0
-	for _, cl := range core.Closures(outer) {
+	var callbacks []*ssa.Function
+	for _, h := range hosts {
+		callbacks = append(callbacks, core.Closures(h)...)
+	}
+	for _, cl := range callbacks {
 		if len(cl.Params) < 3 {
 			continue
 		}
@@ -750,4 +787,91 @@ func checkSharedItemTemplate(c *core.Ctx, r *core.Report) {
 	} else {
 		r.OK("OWN", "writer:shared-created-item-template-is-never-written-through", "-", fmt.Sprintf("%d map updates in the package, none through a value that may alias the template", nUpd))
 	}
+}
+
+// aliasFiles describes, by effect, where the alias files of pkg/virtualtable are touched: a function of that
+// package that calls os.ReadFile / os.WriteFile / os.Remove (or opens / creates a file) and that reads the
+// alias directory (the package variable VTableAliasesDir) itself or through a helper of the package it calls.
+// The helpers around those primitives (writeAliasFile, removeAliasFile today) are found, not named: inlining
+// one into its caller or extracting the name builder leaves the set of primitives the same.
+type aliasFiles struct {
+	// kind of primitive per call: "read", "write", "remove"
+	prims map[ssa.CallInstruction]string
+	// functions hosting at least one primitive, with the kinds hosted
+	hosts map[*ssa.Function]map[string]bool
+	// functions of the package that change an alias file, directly or through package callees
+	changers map[*ssa.Function]bool
+}
+
+func findAliasFiles(c *core.Ctx) *aliasFiles {
+	af := &aliasFiles{prims: map[ssa.CallInstruction]string{}, hosts: map[*ssa.Function]map[string]bool{}, changers: map[*ssa.Function]bool{}}
+	dir := c.Global(pkgVtable, "VTableAliasesDir")
+	pkgPath := core.ModPath + "/" + pkgVtable
+	readsDir := func(fn *ssa.Function) bool {
+		for _, b := range fn.Blocks {
+			for _, in := range b.Instrs {
+				if u, ok := in.(*ssa.UnOp); ok && u.Op == token.MUL && u.X == ssa.Value(dir) {
+					return true
+				}
+			}
+		}
+		return false
+	}
+	var pkgFns []*ssa.Function
+	for _, fn := range c.RepoFunctions() {
+		if core.FnPkgPath(fn) == pkgPath && fn.Blocks != nil {
+			pkgFns = append(pkgFns, fn)
+		}
+	}
+	for _, fn := range pkgFns {
+		uses := readsDir(fn)
+		for _, ci := range core.CallsIn(fn) {
+			if h := ci.Common().StaticCallee(); h != nil && h.Blocks != nil && core.FnPkgPath(h) == pkgPath && len(core.Returns(h)) > 0 {
+				if sig := h.Signature; sig.Results().Len() == 1 && types.Identical(sig.Results().At(0).Type(), types.Typ[types.String]) && readsDir(h) {
+					uses = true
+				}
+			}
+		}
+		if !uses {
+			continue
+		}
+		for _, ci := range core.CallsIn(fn) {
+			f := core.CalleeFunc(ci)
+			if f == nil || f.Pkg() == nil || f.Pkg().Path() != "os" {
+				continue
+			}
+			kind := ""
+			switch f.Name() {
+			case "ReadFile", "Open":
+				kind = "read"
+			case "WriteFile", "Create", "OpenFile":
+				kind = "write"
+			case "Remove", "RemoveAll":
+				kind = "remove"
+			}
+			if kind == "" {
+				continue
+			}
+			af.prims[ci] = kind
+			if af.hosts[fn] == nil {
+				af.hosts[fn] = map[string]bool{}
+			}
+			af.hosts[fn][kind] = true
+			if kind != "read" {
+				af.changers[fn] = true
+			}
+		}
+	}
+	return af
+}
+
+// isChange: the call changes an alias file: a write/remove primitive, or a call of a function hosting one.
+func (af *aliasFiles) isChange(ci ssa.CallInstruction) bool {
+	if k, ok := af.prims[ci]; ok && k != "read" {
+		return true
+	}
+	if h := ci.Common().StaticCallee(); h != nil && af.changers[h] {
+		return true
+	}
+	return false
 }
